@@ -417,14 +417,18 @@ class Tensor:
     # ******* Basic ops *******
     # *************************
     
+    def __scalar_dtype(self):
+        """ Python scalars combined with a floating point tensor take the tensor's dtype """
+        return self.dtype if self.is_floating_point else None
+    
     def __add__(self, summand:'Tensor') -> 'Tensor':
-        summand = summand if isinstance(summand, Tensor) else Tensor(summand, device=self.device)
+        summand = summand if isinstance(summand, Tensor) else Tensor(summand, device=self.device, dtype=self.__scalar_dtype())
         from . import functional as F
         return  F.add(self, summand)
         
         
     def __mul__(self, factor:'Tensor') -> 'Tensor':
-        factor = factor if isinstance(factor, Tensor) else Tensor(factor, device=self.device)
+        factor = factor if isinstance(factor, Tensor) else Tensor(factor, device=self.device, dtype=self.__scalar_dtype())
         from . import functional as F
         return F.mul(self, factor)
     
